@@ -1,6 +1,7 @@
 #!/bin/bash
-# tools/mut.sh <check-id> <only-substring> <patch-file | -e 'python expr over s'> : run one check against a mutated scratch copy (/var/tmp/mutwt), never /repo
-WT=/var/tmp/mutwt
+# tools/mut.sh <check-id> <only-substring> <patch-file | -e 'python expr over s'> : run one check against a mutated scratch copy (/var/tmp/mutwt), never /repo; MUTWT / MUTOUT select another scratch worktree / output directory
+WT=${MUTWT:-/var/tmp/mutwt}
+MO=${MUTOUT:-/var/tmp/mut_out}
 [ -d $WT ] || git -C /repo worktree add --detach $WT HEAD >/dev/null 2>&1
 git -C $WT checkout -q -- . ; git -C $WT reset -q --hard $(git -C /repo rev-parse HEAD)
 id=$1; only=$2; shift 2
@@ -18,6 +19,6 @@ PY
 else
   git -C $WT apply "$1" || exit 3
 fi
-mkdir -p /var/tmp/mut_out/evidence /var/tmp/mut_out/replays
-cd /verif; VERIF_REPO=$WT VERIF_OUT=/var/tmp/mut_out ./check $id --only "$only" 2>&1 | grep -E "^VIOL|^SUMM|^UNDEC" | sed 's/replay=.*replays\/[^/]*\///' | sort -u | cut -c1-220
+mkdir -p $MO/evidence $MO/replays
+cd /verif; VERIF_REPO=$WT VERIF_OUT=$MO ./check $id --only "$only" 2>&1 | grep -E "^VIOL|^SUMM|^UNDEC" | sed 's/replay=.*replays\/[^/]*\///' | sort -u | cut -c1-220
 git -C $WT checkout -q -- .
